@@ -72,7 +72,7 @@ def run(c):
         "the value graph off the real *starlark.Function through those APIs (graph.go) and the model walks that graph",
         "C08_terminates assumes TuplesOrdered (a tuple's elements exist before the tuple); the harness numbers every graph "
         "that way and the driver's answer is compared byte for byte with the real encoder's",
-        "C08_sensitive is partial: injectivity of the whole walk is not proved; every mutation class is judged on the real code",
+        "theorems are at the opcode level (the byte layer is C07_bytes, area Pickle); C08_sensitive is about the repaired code (Cfg.current)",
         "every load / fingerprint / build runs in a child process with a watchdog (90 s), a 256 MB Go stack limit and a 6 GB "
         "address-space limit; a crash or hang after dawn.Load returned is the failing input, one before is outside C08",
         "projects that do not load are outside C08 (observed: a nested def calling itself through a free variable kills the "
